@@ -26,10 +26,16 @@ func init() {
 					cases = append(cases, Case{ID: "C11 " + mode + " " + script, Pkg: "", Fn: "ZZC11", Args: []string{mode, script, spec, "", ""}, Tag: mode})
 				}
 			}
+			// runs of other scripts in between (process history): undeclared variables must stay undeclared
+			other := "vars {\n  monetary $n1\n  monetary $x\n  monetary $c2\n}\nsend $n1 (\n  source = @world\n  destination = @z\n)\nsend $x (\n  source = @world\n  destination = @z\n)"
+			for _, target := range []string{"send $x (\n  source = @world\n  destination = @d\n)", "vars {\n  monetary $n1\n}\nsend $n1 (\n  source = { @a @b }\n  destination = { max $x to @d remaining to @e }\n)",
+				"vars {\n  monetary $n1\n}\nsend $n1 (\n  source = @a\n  destination = @d\n)\nset_tx_meta(\"k\", $c2)", "vars {\n  monetary $n1\n}\nsend $n1 (\n  source = { @a @b }\n  destination = @d\n)"} {
+				cases = append(cases, Case{ID: "C11 history " + target, Pkg: "", Fn: "ZZC11", Args: []string{"history", target, "n1=mon:USD", other, ""}, Tag: "history"})
+			}
 			return cases
 		},
 		Bounds: stdBounds(
-			map[string]interface{}{"templates": "the C10 templates + 3 multi-statement scripts, x 4 modes", "map_iteration_orders": "per path one ranged map (each in turn) takes every order (maps <= 3 entries; identity, reversal, rotation for larger ones), the others insertion order", "concurrency": "two calls executed one after the other under the write-confinement monitor (no interleaving is modelled)"},
+			map[string]interface{}{"templates": "the C10 templates + 3 multi-statement scripts, x 4 modes + 4 scripts run before and after a run of another script (history)", "map_iteration_orders": "per path one ranged map (each in turn) takes every order (maps <= 3 entries; identity, reversal, rotation for larger ones), the others insertion order", "concurrency": "two calls executed one after the other under the write-confinement monitor (no interleaving is modelled)"},
 			map[string]interface{}{"templates": "the C10 thorough templates + 3 multi-statement scripts, x 4 modes", "map_iteration_orders": "per path up to two ranged maps take every order, the others insertion order", "concurrency": "by write confinement"}),
 		Assumptions: append([]string{
 			"re-entrancy is decided by reduction: Run writes only objects it allocated itself (no store into the parsed program, the variables map, the flag map or any package-level variable); calls with disjoint write sets cannot interfere under any interleaving",
